@@ -1,13 +1,16 @@
-import Orca.Lemmas.Lower
+import Orca.Lemmas.SpecialFlat
 /-!
 # C22 — special-mode injections are never silently lost
 
 Model: `Orca.Lower` (M3). Every public injection path ends in one of the `ApiOp`s (`inject` for iterators and
 `FunctionModifier::inject`, `injectAtRaw` for `FunctionModifier::inject_at`, `emptyBlockAlt`). The theorems say that
-each of them either marks the function for `resolve_special_instrumentation` or rejects the call; that the marked
-injections then reach the encoded module is checked per case by the correspondence oracle (every probe id must
-appear in the output unless the plan itself removes the construct), with one known finding (F15: a branch to the
-function label).
+each of them either marks the function for `resolve_special_instrumentation` or rejects the call. That a marked
+injection then reaches the encoded module is proved for every body whose only instrumentation is that injection
+(`c22_block_entry_reaches_output`, `c22_block_exit_reaches_output`, `c22_semantic_after_reaches_output`,
+`c21_block_alt_region` for block alternates: the probe is in the encoded function, at the place the mode names, whatever
+the nesting around, inside and behind the construct) and checked per case by the correspondence oracle for plans that
+combine injections (every probe id must appear in the output unless the plan itself removes the construct), with one
+known finding (F15: semantic-after on a branch to the function label).
 -/
 namespace Orca.Lower
 
@@ -57,5 +60,48 @@ example :
                                ⟨"end", .end_, none, [], [], none, [], [], [], none⟩, ⟨"end", .end_, none, [], [], none, [], [], [], none⟩] }
     ((applyAll f0 [.injectAtRaw 0 .blockEntry "p", .setFMode .entry, .inject 0 "e", .setMode 1 .before, .inject 1 "b"]).map
         (fun f => (lower f).1)) = some ["e", "block", "p", "b", "nop", "end", "end"] := by decide
+
+/-- **a block-entry injection reaches the output**, right behind the opening instruction — every body, any nesting -/
+theorem c22_block_entry_reaches_output (f : Func) (pre rest : List Instr) (sel : Instr) (pr : List Tok)
+    (hbody : f.body = pre ++ sel :: rest) (hrne : rest ≠ [])
+    (hsp : f.hasSpecial = true) (hentry : f.entry = []) (hexit : f.exit = [])
+    (hpre : ∀ x ∈ pre, Clean x) (hrest : ∀ x ∈ rest, Clean x) (hsel : OnlyEntry sel pr)
+    (hk : sel.kind = .block ∨ sel.kind = .loop ∨ sel.kind = .if_)
+    (n n2 : Nat) (hd1 : depthAfter pre 1 = some n) (hd2 : depthAfter rest (n + 1) = some n2) :
+    lower f = (toks pre ++ [sel.tok] ++ pr ++ toks rest, f.added) :=
+  blockEntry_placed f pre rest sel pr hbody hrne hsp hentry hexit hpre hrest hsel hk n n2 hd1 hd2
+
+/-- **a block-exit injection on a `block` / `loop` reaches the output**, in front of the construct's matching `end` -/
+theorem c22_block_exit_reaches_output (f : Func) (pre region post : List Instr) (sel endI : Instr) (pr : List Tok)
+    (hbody : f.body = pre ++ sel :: region ++ endI :: post) (hpne : post ≠ [])
+    (hsp : f.hasSpecial = true) (hentry : f.entry = []) (hexit : f.exit = [])
+    (hpre : ∀ x ∈ pre, Clean x) (hreg : ∀ x ∈ region, Clean x) (hend : Clean endI) (hpost : ∀ x ∈ post, Clean x)
+    (hsel : OnlyExit sel pr) (hk : sel.kind = .block ∨ sel.kind = .loop) (hendk : endI.kind = .end_)
+    (n n2 : Nat) (hd1 : depthAfter pre 1 = some n) (hd2 : depthAfter region 0 = some 0) (hd3 : depthAfter post n = some n2) :
+    lower f = (toks pre ++ [sel.tok] ++ toks region ++ pr ++ [endI.tok] ++ toks post, f.added) :=
+  blockExit_placed f pre region post sel endI pr hbody hpne hsp hentry hexit hpre hreg hend hpost hsel hk hendk n n2 hd1 hd2 hd3
+
+/-- **a semantic-after injection on a `block` / `loop` / `if` reaches the output**, behind the construct's matching `end` -/
+theorem c22_semantic_after_reaches_output (f : Func) (pre region post : List Instr) (sel endI : Instr) (pr : List Tok)
+    (hbody : f.body = pre ++ sel :: region ++ endI :: post) (hpne : post ≠ [])
+    (hsp : f.hasSpecial = true) (hentry : f.entry = []) (hexit : f.exit = [])
+    (hpre : ∀ x ∈ pre, Clean x) (hreg : ∀ x ∈ region, Clean x) (hend : Clean endI) (hpost : ∀ x ∈ post, Clean x)
+    (hsel : OnlySemAfter sel pr) (hk : sel.kind = .block ∨ sel.kind = .loop ∨ sel.kind = .if_) (hendk : endI.kind = .end_)
+    (n n2 : Nat) (hd1 : depthAfter pre 1 = some n) (hd2 : depthAfter region 0 = some 0) (hd3 : depthAfter post n = some n2) :
+    lower f = (toks pre ++ [sel.tok] ++ toks region ++ [endI.tok] ++ pr ++ toks post, f.added) :=
+  semAfter_placed f pre region post sel endI pr hbody hpne hsp hentry hexit hpre hreg hend hpost hsel hk hendk n n2 hd1 hd2 hd3
+
+/-! non-vacuity (decided): a loop nested in a block, probe `P` in each of the three modes on the loop -/
+private def mkI (t : Tok) (k : Kind) : Instr := { tok := t, kind := k }
+set_option maxRecDepth 8000 in
+example :
+    let body (sel : Instr) : List Instr :=
+      [mkI "a" .other, mkI "block" .block, sel, mkI "b" .other, mkI "if" .if_, mkI "c" .other, mkI "end" .end_, mkI "end" .end_,
+       mkI "d" .other, mkI "end" .end_, mkI "end" .end_]
+    let go (sel : Instr) := (lower { body := body sel, hasSpecial := true }).1
+    go { mkI "loop" .loop with blockEntry := ["P"] } = ["a", "block", "loop", "P", "b", "if", "c", "end", "end", "d", "end", "end"]
+    ∧ go { mkI "loop" .loop with blockExit := ["P"] } = ["a", "block", "loop", "b", "if", "c", "end", "P", "end", "d", "end", "end"]
+    ∧ go { mkI "loop" .loop with semAfter := ["P"] } = ["a", "block", "loop", "b", "if", "c", "end", "end", "P", "d", "end", "end"] := by
+  decide
 
 end Orca.Lower
